@@ -191,7 +191,12 @@ def constructions():
                 yield ("direct", name, None, (lambda c=cls: c()))
             else:
                 yield ("direct", name, arg, (lambda c=cls, a=arg: c(a)))
-    for m, n in (("os", "system"), ("foo.bar", "Baz"), ("builtins", "eval")):
+    for m, n in (("os", "system"), ("foo.bar", "Baz"), ("builtins", "eval"),
+                 # names with white space: legal in GLOBAL's newline-terminated lines except for the
+                 # space and the newline themselves, which must be refused
+                 ("pkg\tmod", "name"), ("mod", "na\x0cme"), ("mod", "name\r"), ("m\x1cx", "n"),
+                 ("m\x0bx", "n\x1f"), ("a b", "c"), ("a", "b c"), ("a  b", "c"), ("a\nb", "c"),
+                 ("a", "b\n"), ("verif_objs", "Outer.Inner")):  # fmt: skip
         yield ("Global.create", "GLOBAL", f"{m} {n}", (lambda m=m, n=n: fickle.Global.create(m, n)))
         yield ("Inst.create", "INST", f"{m} {n}", (lambda m=m, n=n: fickle.Inst.create(m, n)))
     for k in (0, 1, 2, 255, 256, 321987, 2**40):
